@@ -72,7 +72,10 @@ def C02(tier):
         dict(engine="tlaps", module="PartitionProof", name="TLAPS_PartitionProof", deps=["PartitionAlg"]),
         dict(module="Bulk", name="MC_Bulk",
              cfg=dict(constants=dict(FIX, N=q(tier, 4, 5), NMin=1, MaxReq=q(tier, 3, 3), OutOfRange=False, DebugAssertions=True, Emit=False),
-                      invariants=["BagInv", "FrameInv", "DoneOK", "PanicIffOutOfRange"], properties=["Terminates"], view="view")),
+                      invariants=["BagInv", "FrameInv", "DoneOK", "PanicIffOutOfRange"], properties=["Terminates", "RefinesProof"], view="view")),
+        # every length, request set and pivot sequence: pending windows disjoint and sandwiched, every wanted position pending or
+        # settled, no panic, all settled at return (TLAPS on BulkAlg, 289 obligations); MC_Bulk checks the refinement
+        dict(engine="tlaps", module="BulkProof", name="TLAPS_BulkProof", deps=["BulkAlg"]),
         dict(module="Select", name="MC_Select_emit", emit=True,
              cfg=dict(constants=dict(FIX, N=q(tier, 4, 5), NMin=1, OutOfRange=False, Emit=True),
                       invariants=["DoneOK", "EmitInv"])),
@@ -606,7 +609,7 @@ META = {
              "behaviour (pattern, request, pivot sequence) is replayed into the real code through the scripted pivot hook, and all "
              "observations (also of long random lanes under real RNG and hostile pivot policies) are validated by TLC; logged pivots "
              "are additionally re-run through the transcription to detect drift. For every length, position and pivot sequence the window "
-             "invariants, absence of panics and the arrangement clause are proved with TLAPS on SelectAlg (refined by the checked machine).",
+             "invariants, absence of panics and the arrangement clause are proved with TLAPS on SelectAlg and BulkAlg (refined by the checked machines).",
         design_ref="DESIGN.md section 5, C02 and section 8.6", note=SORT_NOTE + "The pivot hook is trusted to report the pivots actually used.",
         technique="TLC model checking over all pivot schedules + scripted-pivot replay + trace validation; TLAPS proof of the recursion invariant for every length (refinement checked by TLC)"),
     "C16": dict(
